@@ -466,3 +466,70 @@ def alarm_star_of_list_same_length(src):
     xs.insert(0, src)
     xs.reverse()
     _target(*xs)
+
+
+# ---- isinstance(args[i], C) narrows args[i] of the *args tuple ---------------------------------------------------------
+class _Reader:
+    def go(self, x):
+        return x.width
+
+
+class _Writer:
+    def go(self, x):
+        x.width = 1
+
+
+def _pick(src, *objs):
+    if isinstance(objs[0], _Reader):
+        return objs[0].go(src)
+    return objs[0].go(deepcopy(src))
+
+
+def ok_vararg_index_narrowing(src):
+    xs = [_Reader(), _Writer()]
+    _pick(src, *xs)
+
+
+def _pick_bad(src, *objs):
+    if isinstance(objs[0], _Reader):
+        return objs[0].go(deepcopy(src))
+    return objs[0].go(src)
+
+
+def alarm_vararg_index_narrowing(src):
+    xs = [_Reader(), _Writer()]
+    _pick_bad(src, *xs)
+
+
+def _pick_other_index(src, *objs):
+    if isinstance(objs[0], _Reader):
+        return objs[1].go(src)  # a different position is not narrowed
+    return None
+
+
+def alarm_vararg_other_index(src):
+    xs = [_Reader(), _Writer()]
+    _pick_other_index(src, *xs)
+
+
+def _pick_rebound(src, *objs):
+    if isinstance(objs[0], _Reader):
+        objs = (_Writer(),)
+        return objs[0].go(src)
+    return None
+
+
+def alarm_vararg_rebound_in_region(src):
+    _pick_rebound(src, _Reader())
+
+
+def _pick_list(src, objs):
+    # a LIST may change between the test and the use: no narrowing
+    if isinstance(objs[0], _Reader):
+        objs.reverse()
+        return objs[0].go(src)
+    return None
+
+
+def alarm_list_index_not_narrowed(src):
+    _pick_list(src, [_Reader(), _Writer()])
